@@ -912,12 +912,14 @@ func (in *Interp) checkSlice(rel []*term.Term, neg *term.Term) Obligation {
 	case "sat":
 		ob.Status, ob.Tier = "candidate", "fp"
 		ob.Model = in.decodeModel(rP.Model, scP.Mode)
+		ob.UF = rP.UF
 		ob.Weak = term.HasUF(asserts...)
 	default:
 		if rU.Status == "sat" {
 			ob.Status, ob.Tier = "candidate", "fpuf"
 			ob.Weak = true
 			ob.Model = in.decodeModel(rU.Model, scU.Mode)
+			ob.UF = rU.UF
 			ob.Note = "bit-precise tier: " + rP.Note
 		} else {
 			ob.Status = "inconclusive"
